@@ -1937,7 +1937,7 @@ impl Prop for C10 {
         "Streams, over three schemas (the repo's `numbers`; `c10a`: Boolean/ID/Float properties, 29- and 30-level list properties, list/string/bool parameters with defaults and nullability, a three-level interface hierarchy with narrowed edge types, a custom scalar; `c10dup`: an edge that declares a parameter twice, accepted by Schema::parse): (valid) type-directed queries (root fields with parameters, properties incl. __typename, every edge, aliases, `... on` coercions, @optional/@recurse/@fold/@fold @transform(count) with @output/@filter/@tag, filters with variables and with previously defined tags incl. fold-count tags; one document in six in a loose mode with names from small pools - output/tag clashes, variables shared between filters - fold-local tags kept visible and rejected directive mixes); (mut) one to three random mutations of such a query out of 34 kinds: drop/duplicate/transpose/insert a directive, wrong argument kinds, missing/extra/duplicated arguments, @transform chains, directives on the root field / operation / fragment spreads / inline fragments, 1/2/3 named operations, fragments defined/used/unused, variable definitions, mutation/subscription, aliases everywhere, numeric edge cases of `depth`, filter operand shapes, renamed fields incl. __typename, edge arguments of every value kind, coercion under a property, output-name clashes, structures no text can produce (empty operation map, empty selection set); (bytes) rendered valid text with 1-4 random character edits: `(text-nopanic hex)` explores the unmodelled text parser (both sides answer the constant `nopanic`), and whatever the text parser accepts is converted back to an abstract document and sent as a compile-doc request. Every abstract document goes to the model as an s-expression and to the implementation as a directly constructed ExecutableDocument: `(compile-doc schema view doc)` compares the outcome class of frontend::parse_doc + IndexedQuery conversion (ok / `err parse V` / `err frontend V1 V2 …` in order / panic) with the model's `compile`; `(parse-doc doc)` (a third of the documents) compares graphql_query::query::parse_document alone; `(view-valid schema view)` compares the theorems' schema hypothesis with Schema::parse + distinct parameter names. A case is non-trivial (`nt:`) when it gets past the parse layer (compile-doc) or when its parse-layer answer is an error/panic or an `ok` with edge directives (parse-doc). ORACLE (all streams): no panic anywhere - frontend::parse on the rendered text, parse_doc + conversion on the constructed AST, the text parser on edited bytes - for any document a text could produce; when a document renders to text, async_graphql_parser::parse_query of that text must give exactly the constructed AST (normalised Debug equality) and the same outcome class."
     }
     fn generate(&self, tier: Tier, rng: &mut Rng) -> Vec<Case> {
-        let (n_valid, n_mut, n_bytes) = if tier == Tier::Quick { (2000, 7000, 4000) } else { (25000, 120000, 60000) };
+        let (n_valid, n_mut, n_bytes) = if tier == Tier::Quick { (2000, 7000, 4000) } else { (20000, 70000, 40000) };
         let mut out = vec![];
         let emit = |doc: &Doc, si: &SchemaInfo, view: &Sexp, mut tags: Vec<String>, also_parse: bool, out: &mut Vec<Case>| {
             histogram_doc_tags(doc, &mut tags);
